@@ -30,15 +30,15 @@ type tierCfg struct {
 }
 
 type prop struct {
-	ID      string
-	Pkg     string
-	Race    bool
-	Quick   tierCfg
-	Thor    tierCfg
-	Level   string
-	Hang    bool // a timeout with goroutines blocked in osm frames is a violation
-	Assume  []string
-	Fuzz    []fuzzTarget // native fuzz targets, thorough tier only
+	ID        string
+	Pkg       string
+	Race      bool
+	Quick     tierCfg
+	Thor      tierCfg
+	Level     string
+	Hang      bool // a timeout with goroutines blocked in osm frames is a violation
+	Assume    []string
+	Fuzz      []fuzzTarget // native fuzz targets, thorough tier only
 	BuildTags string
 }
 
